@@ -129,3 +129,95 @@ PROPS['C15'] = dict(
         thorough=[rc(500000, shards=6, max_size=600, corpus=CORPUS), fuzz(5000000, shards=10, max_len=2048, corpus=CORPUS)],
     ),
 )
+
+WRITER_GEN = ('cases: write-call sequences decoded from the case bytes: well-formed ones flattened from generated trees (all types, integer/length '
+              'boundaries, payloads up to 70000 bytes) and arbitrary ones over all writer calls incl. write_raw, the C-string forms, unbalanced '
+              'begin/end and names without values; every payload and the destination live in exactly-sized heap blocks. ')
+PROPS['C04'] = dict(
+    harness='writer', env={'VH_PROP': 'C04'},
+    rule=WRITER_GEN + 'Each sequence is run against every capacity 0..size+2 (size <= 512) or 0, 1, every piece boundary +-1, size-1, size, size+1 and 16 '
+         'generated capacities, and re-run with the reported size. A (sequence, capacity) pair is non-trivial iff 0 < capacity < size and the cut '
+         'falls strictly inside a token; distinct = hash(encoding, call count, capacity).',
+    tiers=dict(
+        quick=[rc(12000, shards=8, max_size=250), fuzz(30000, shards=8, max_len=256)],
+        thorough=[rc(200000, shards=6, max_size=500), fuzz(1500000, shards=10, max_len=1024)],
+    ),
+)
+PROPS['C05'] = dict(
+    harness='writer', env={'VH_PROP': 'C05'},
+    rule=WRITER_GEN + 'Only well-formed sequences here: output compared byte for byte with the reference encoder, verified, decoded back by a full traversal, '
+         'writer_verify within its limits. Sweeps: every integer within 2^16 of +-2^k (k = 0..63) and (thorough) every 32-bit value, every '
+         'string/bytes length (quick: 0..300, 32700..32800, 65500..65600, 70000; thorough: 0..70000), each written, compared with the reference '
+         'encoding and read back. Non-trivial iff some integer or length needs more than one byte; distinct = hash(encoding) / sampled sweep values '
+         '(every 64th boundary integer and every length are entered into the distinct set).',
+    tiers=dict(
+        quick=[enum(shards=8, variant='plain'), rc(20000, shards=4, max_size=300), fuzz(100000, shards=4, max_len=512)],
+        thorough=[enum(shards=16, variant='plain'), rc(400000, shards=4, max_size=600), fuzz(5000000, shards=10, max_len=2048)],
+    ),
+    exhaustive_note=lambda tier, tot: [dict(scope='integers within 2^16 of +-2^k, k=0..63' + (' and all 2^32 32-bit values' if tier == 'thorough' else ''),
+                                             exhaustive=True, values=tot['counters'].get('enum_boundary_integers', 0) + tot['counters'].get('enum_all_int32', 0)),
+                                        dict(scope='string and bytes lengths ' + ('0..70000' if tier == 'thorough' else '0..300, 32700..32800, 65500..65600, 70000'),
+                                             exhaustive=True, values=tot['counters'].get('enum_lengths', 0))],
+)
+PROPS['C09'] = dict(
+    harness='apiseq', env={'VH_PROP': 'C09'},
+    rule=('parser half: ' + APISEQ_RULE + 'Each error class (RANGE by truncation, FORMAT by mutation, WRONG_TYPE by *_ensure, STATE by get_name without a name, '
+          'MAX_DEPTH_* by deep documents with small max_depth, NULL by field_with_length(NULL)) occurs at whatever position the script reaches it; '
+          'afterwards arbitrary further calls are checked for false / neutral results until reset, init, verify, print or to_string. writer half: '
+          + WRITER_GEN + 'run against a too-small capacity, a NULL buffer or an injected NULL argument, then continued with the remaining calls. '
+          'Non-trivial iff >= 3 calls follow the first error incl. one advancing call and one getter (parser) / one write that would still fit '
+          '(writer); distinct = hash(document or encoding, op kinds, capacity).'),
+    tiers=dict(
+        quick=[rc(30000, shards=4, max_size=250, corpus=CORPUS), fuzz(300000, shards=5, corpus=CORPUS),
+               rc(30000, shards=3, max_size=250, harness='writer', tag='w'), fuzz(150000, shards=4, max_len=256, harness='writer', tag='w')],
+        thorough=[rc(600000, shards=3, max_size=500, corpus=CORPUS), fuzz(30000000, shards=7, max_len=4096, corpus=CORPUS),
+                  rc(600000, shards=2, max_size=500, harness='writer', tag='w'), fuzz(10000000, shards=4, max_len=1024, harness='writer', tag='w')],
+    ),
+)
+
+PROPS['C03'] = dict(
+    harness='decode', env={'VH_PROP': 'C03'},
+    rule=('cases: valid object- and array-rooted documents (generated trees of all seven types: integers around every width boundary and random, arbitrary '
+          'double bit patterns incl. NaN payloads/-0/inf/denormals, names/strings/bytes with arbitrary bytes and lengths across 127/128 and 32767/32768 up '
+          'to 70000, nesting chains up to the limits, shipped valid corpus files) walked completely with next/go_into_*/leave_*; every element compared '
+          'with the reference decoder (type, name/string/bytes spans by pointer identity, integer, double bits, boolean, neutral results of all other '
+          'getters, string_equals for exact/longer/shorter/differing strings and on non-strings). Sweeps: every integer within 2^16 of +-2^k and '
+          '(thorough) every 32-bit value, every string/bytes length (quick subset / thorough 0..70000) from the reference encoder through the parser. '
+          'Non-trivial iff the document has an integer outside int8, a length >= 128 or nesting >= 2; distinct = hash(document) / sampled sweep values.'),
+    tiers=dict(
+        quick=[enum(shards=8, variant='plain'), rc(20000, shards=4, max_size=300, corpus=['valid_objects']), fuzz(100000, shards=4, max_len=512, corpus=['valid_objects'])],
+        thorough=[enum(shards=16, variant='plain'), rc(400000, shards=4, max_size=600, corpus=['valid_objects']), fuzz(5000000, shards=10, max_len=2048, corpus=['valid_objects'])],
+    ),
+    exhaustive_note=lambda tier, tot: [dict(scope='integer encodings within 2^16 of +-2^k, k=0..63' + (' and all 2^32 1-, 2- and 4-byte encodings' if tier == 'thorough' else ''),
+                                             exhaustive=True, values=tot['counters'].get('enum_boundary_integers', 0) + tot['counters'].get('enum_all_int32', 0)),
+                                        dict(scope='string and bytes lengths ' + ('0..70000' if tier == 'thorough' else '0..300, 32700..32800, 65500..65600, 70000'),
+                                             exhaustive=True, values=tot['counters'].get('enum_lengths', 0))],
+)
+PROPS['C10'] = dict(
+    harness='decode', env={'VH_PROP': 'C10'},
+    rule=('cases: valid object-rooted documents (generated trees as for C03, nesting chains, and all 220 shipped valid corpus files, each replayed in every run) '
+          'traversed with the parser while every decoded name and value is handed to the matching writer call; the writer buffer (exactly input-sized) '
+          'must equal the input byte for byte. Non-trivial iff the document has >= 3 distinct token kinds and one multi-byte integer or length; '
+          'distinct = hash(document).'),
+    tiers=dict(
+        quick=[enum(shards=2, variant='san'), rc(30000, shards=7, max_size=300, corpus=['valid_objects']), fuzz(150000, shards=7, max_len=512, corpus=['valid_objects'])],
+        thorough=[enum(shards=2, variant='san'), rc(600000, shards=4, max_size=600, corpus=['valid_objects']), fuzz(6000000, shards=10, max_len=2048, corpus=['valid_objects'])],
+    ),
+    exhaustive_note=lambda tier, tot: [dict(scope='all shipped valid corpus files (utest/test_data/valid_objects)', exhaustive=True,
+                                             files=tot['counters'].get('corpus_files_transcribed', 0))],
+)
+
+PROPS['C08'] = dict(
+    harness='strict',
+    rule=('cases: arbitrary byte strings (encodings of generated trees, 1-4 structural/byte mutations of them, nesting chains around the limits, raw bytes, '
+          'shipped valid and invalid corpora) x max_depth from {1,2,3,10,255} or random x three adaptive traversal strategies per document that use only '
+          'the parser\'s own answers (next / lookup with names seen so far / enter, skip, get_raw or to_writer on containers / early leaves, ending by '
+          'leaving the root). Traversal verdict (every enter/leave/raw successful and error NONE at the end) must equal verify on a fresh parser (and the '
+          'reference recogniser). Non-trivial iff init accepted the bytes and either the document is invalid with its first defect inside a byte range '
+          'the strategy passed over without entering (skip, early leave, raw, lookup), or it is valid and the strategy used an early leave; '
+          'distinct = hash(bytes, strategy choices).'),
+    tiers=dict(
+        quick=[rc(30000, shards=7, max_size=250, corpus=CORPUS), fuzz(200000, shards=9, corpus=CORPUS)],
+        thorough=[rc(600000, shards=4, max_size=500, corpus=CORPUS), fuzz(15000000, shards=12, max_len=2048, corpus=CORPUS)],
+    ),
+)
